@@ -440,3 +440,20 @@ def straightline_env(stmts, env=None):
                     env.pop(n.id, None)
             continue
     return env
+
+
+def added_elements(call):
+    """(container text, [element asts]) when `call` adds elements to a set / list held in a name or access path:
+    X.add(e) / X.append(e) -> [e];  X.update(<display>) / X.extend(<display>) -> the display's elements;  None otherwise."""
+    if not (isinstance(call, ast.Call) and isinstance(call.func, ast.Attribute) and len(call.args) == 1 and not call.keywords):
+        return None
+    a = call.args[0]
+    if call.func.attr in ("add", "append"):
+        return norm(call.func.value), [a]
+    if call.func.attr in ("update", "extend"):
+        if isinstance(a, (ast.Tuple, ast.List, ast.Set)):
+            return norm(call.func.value), list(a.elts)
+        if isinstance(a, ast.Call) and isinstance(a.func, ast.Name) and a.func.id in ("set", "list", "tuple", "frozenset") and len(a.args) == 1 \
+                and isinstance(a.args[0], (ast.Tuple, ast.List, ast.Set)):
+            return norm(call.func.value), list(a.args[0].elts)
+    return None
